@@ -184,7 +184,7 @@ def r2_consumers(ctx, chk, rule="C13.2"):
                     chk.ok(rule, f.where(), "%s.%s: `%s` only seeds a MIN/MAX fold with the value at the first element (order-insensitive)" % (cls, m, show(t)))
                 elif is_const(t[2]) and t[2][1] in (0, -1) and _only_single_element(k, t):
                     chk.ok(rule, f.where(), "%s.%s: `%s` is read only where the list has exactly one element (its only element, whatever the order)" % (cls, m, show(t)))
-                elif not _direct_in_result(k, t):
+                elif not _direct_in_result(k, t) or any(y == t for L_ in k.sx.loops.values() for u_ in list(L_.filters or []) + list(L_.update.values()) for y in C02._sub(u_)):
                     # the value at a fixed position goes into a call / a loop / a fold that is not brought to normal form here (the seed of
                     # `min([first, *keys])`, of a `reduce`, of a helper): whether the result depends on the order is not decided
                     chk.undecided(rule, f.where(), "%s.%s reads `%s` and hands it to a computation that is not brought to a MIN/MAX fold seeded with the first element" % (cls, m, show(t)))
@@ -537,6 +537,7 @@ def _subterms_of(t):
 
 
 def run(ctx, chk):
+    shared.rule_no_keyed_collapse(ctx, chk, "C13.0:keyed")      # a dictionary keyed by a part of the transition, groupby on the unsorted list: the result depends on the transition order
     # the same game written in another order must be ACCEPTED all the same: a validation that refuses a well-formed description for
     # the order its transitions are written in (a running float sum compared exactly) makes solvability depend on the notation
     from . import C09 as _C09
